@@ -7,7 +7,7 @@ from av import attach, ref
 MANIFEST_ENTRY = {
     "category": "exploration",
     "technique": "runtime post-condition monitor on every real call of constrain_sum_bounded (direct and inside TotalSpendConstraint / SpendingPackageAdjustment workloads) plus read-back of ProgramInstructions.alloc after Optimization.constrain_instructions",
-    "text": "Random proposal vectors (all-zero, single non-zero, already feasible, wildly infeasible), totals, and bound vectors (0, finite, infinite, equal lower and upper) for 1-10 programs are pushed through the real constrain_sum_bounded; every return is checked for |sum - s| <= 1e-6 s and every bound, a feasible input must come back unchanged, and any exception counts as the 'cannot be satisfied' signal. Optimization objects with plain, paired and package adjustments over several constrained years, budget factors, relative and absolute bounds are built on a real ProgramSet; impossible totals must raise UnresolvableConstraint from get_hard_constraints (and possible ones must not), and after constrain_instructions on random proposals the allocation is read back from the instructions: per constrained year the sum and every bound, package shares within min/max proportions and package totals within limits. Proposals include entries sitting exactly on their bounds (as optimizer-clipped proposals do) and sums that differ from the total by one rounding error. Adjustment years are given in any order, with one limit for all years or one per year, and the expected hard bounds are taken from what was handed to the constructors. Explicit totals come with budget factors. Explicit totals include exactly 0.",
+    "text": "Random proposal vectors (all-zero, single non-zero, already feasible, wildly infeasible), totals, and bound vectors (0, finite, infinite, equal lower and upper) for 1-10 programs are pushed through the real constrain_sum_bounded; every return is checked for |sum - s| <= 1e-6 s and every bound, a feasible input must come back unchanged, and any exception counts as the 'cannot be satisfied' signal. Optimization objects with plain, paired and package adjustments over several constrained years, budget factors, relative and absolute bounds are built on a real ProgramSet; impossible totals must raise UnresolvableConstraint from get_hard_constraints (and possible ones must not), and after constrain_instructions on random proposals the allocation is read back from the instructions: per constrained year the sum and every bound, package shares within min/max proportions and package totals within limits. Proposals include entries sitting exactly on their bounds (as optimizer-clipped proposals do) and sums that differ from the total by one rounding error. Adjustment years are given in any order, with one limit for all years or one per year, and the expected hard bounds are taken from what was handed to the constructors. Explicit totals come with budget factors. Explicit totals include exactly 0. In 40% of the problems the Optimization / adjustment objects have been used before from another allocation.",
     "note": "The silent bad return is the violation; raising is always acceptable. Progress (that feasible problems are eventually solved) is only claimed for inputs that are feasible after mere multiplicative rescaling.",
 }
 
